@@ -677,6 +677,21 @@ fn gen_merge(rng: &mut Rng, k: usize, tbl: &[Row], indexed: &[usize], malformed:
     Op::Merge { cfg: MergeCfg { on, m, insert, ns, use_index: rng.chance(3, 4), cols }, rows }
 }
 
+/// a predicate for a scanner-evaluated filter (delete / count / update).  With a scalar index on column c the scanner
+/// answers `NOT (.. c ..)` / `c != v` from the index with two-valued logic (rows with NULL in c are returned: the
+/// C19 finding, recorded for C12 as `indexed_not_null_rows`); the model has no index evaluation, so these shapes are left out.
+fn gen_filter(rng: &mut Rng, tbl: &[Row], k: usize, indexed: &[usize]) -> Expr {
+    let opts = querykit::GenOpts::default();
+    for _ in 0..12 {
+        let e = querykit::gen_pred(rng, tbl, k, &opts);
+        if !indexed.iter().any(|c| querykit::negates_col(&e, *c)) {
+            return e;
+        }
+    }
+    let opts = querykit::GenOpts { avoid_cols: indexed.to_vec(), ..Default::default() };
+    querykit::gen_pred(rng, tbl, k, &opts)
+}
+
 impl Prop for C12 {
     fn id(&self) -> &'static str {
         "C12"
@@ -684,9 +699,9 @@ impl Prop for C12 {
 
     fn budget(&self, tier: Tier) -> usize {
         match tier {
-            Tier::Quick => 220,
-            Tier::Thorough => 5000,
-            Tier::Search => 1200,
+            Tier::Quick => 700,
+            Tier::Thorough => 12000,
+            Tier::Search => 3000,
         }
     }
 
@@ -733,10 +748,10 @@ impl Prop for C12 {
         let n_ops = 1 + rng.usize(3);
         for _ in 0..n_ops {
             let op = match rng.below(20) {
-                0..=3 => Op::Delete(querykit::gen_pred(rng, &tbl, k, &pred_opts)),
-                4..=5 => Op::Count(querykit::gen_pred(rng, &tbl, k, &pred_opts)),
+                0..=3 => Op::Delete(gen_filter(rng, &tbl, k, &indexed)),
+                4..=5 => Op::Count(gen_filter(rng, &tbl, k, &indexed)),
                 6..=9 => {
-                    let cond = if rng.chance(1, 8) { None } else { Some(querykit::gen_pred(rng, &tbl, k, &pred_opts)) };
+                    let cond = if rng.chance(1, 8) { None } else { Some(gen_filter(rng, &tbl, k, &indexed)) };
                     Op::Update { assigns: gen_assigns(rng, k), cond }
                 }
                 _ => gen_merge(rng, k, &tbl, &indexed, malformed),
@@ -947,7 +962,13 @@ impl Prop for C12 {
                         let n = count.unwrap_or(usize::MAX);
                         match &expected {
                             Some((_, _, Some(want))) if *want == n => {}
-                            _ => fail(&mut res, format!("count_rows(filter) = {n}, SQL semantics gives {:?}", expected.as_ref().and_then(|x| x.2)), "count_filter_mismatch"),
+                            _ => {
+                                let key = match &op {
+                                    Op::Count(e) if s.indexed.iter().any(|c| querykit::negates_col(e, *c)) => "indexed_not_null_rows",
+                                    _ => "count_filter_mismatch",
+                                };
+                                fail(&mut res, format!("count_rows(filter) = {n}, SQL semantics gives {:?}", expected.as_ref().and_then(|x| x.2)), key)
+                            }
                         }
                         res.outputs.push(format!("ok n={n}"));
                         continue;
@@ -972,6 +993,16 @@ impl Prop for C12 {
                             };
                             if got_rows != want || !stats_ok {
                                 let mut key = format!("{tag}_mismatch");
+                                let filt = match &op {
+                                    Op::Delete(e) => Some(e),
+                                    Op::Update { cond: Some(e), .. } => Some(e),
+                                    _ => None,
+                                };
+                                if let Some(e) = filt {
+                                    if s.indexed.iter().any(|c| querykit::negates_col(e, *c)) {
+                                        key = "indexed_not_null_rows".into();
+                                    }
+                                }
                                 if let (Op::Merge { cfg, rows }, Some(p)) = (&op, path) {
                                     // name the defect class: the smallest set of known deviations that explains the result
                                     let devs = [
@@ -1065,7 +1096,7 @@ impl Prop for C12 {
          update 20% (1-2 assignments col:=literal|NULL|col|col+k, WHERE from the query kit or none), merge_insert 50% (1-2 key columns, \
          biased to the indexed column; every when_matched x when_not_matched x when_not_matched_by_source combination; use_index 3/4; \
          full or partial source schema; 0-5 source rows with matching keys, fresh keys, NULL keys and duplicates; UpdateIf / DeleteIf \
-         conditions from the query kit). Predicates come from querykit::gen_pred (TRUE on 10-60% of the current rows). 15% malformed \
+         conditions from the query kit). Predicates come from querykit::gen_pred (TRUE on 10-60% of the current rows); filters evaluated by the scanner leave out NOT / != over an indexed column (two-valued index answers: C19). 15% malformed \
          (unknown columns, trailing tokens, key missing from the source, no-op configuration, partial schema with delete, ops before \
          create). Non-trivial = some op changed the table."
             .into()
